@@ -25,5 +25,8 @@ def run(ctx):
 
 
 def replay(ctx, case):
-    import session_rp, tlc, os
-    sc.run_rp(ctx, PREFIXES, 40, 8)
+    c = case.get('case') or {}
+    if c.get('kind') == 'session':
+        sc.replay_one(ctx, c['behaviour'], PREFIXES)
+    else:
+        sc.run_rp(ctx, PREFIXES, 40, 8)
